@@ -136,7 +136,7 @@ func mkIter(source string, vals []int) age.IteratorLike[int] {
 func cursor(r *engine.Rec) {
 	maxN := 4
 	if r.Tier == "thorough" {
-		maxN = 6
+		maxN = 9
 	}
 	states := map[string]bool{}
 	for _, source := range []string{"agent", "list", "array"} {
@@ -289,7 +289,7 @@ func eqInt(a, b int) bool { return a == b }
 func snapshots(r *engine.Rec) {
 	maxN := 3
 	if r.Tier == "thorough" {
-		maxN = 5
+		maxN = 7
 	}
 	mk := func(n int) []int {
 		a := make([]int, n)
@@ -542,7 +542,7 @@ func init() {
 		ID:        "C17",
 		Technique: "explicit-state enumeration of the real iterator: every (size, slot, second-iterator slot) state x every move incl. ToSlot(k) for k in -n-2..n+2 on either iterator (covers move sequences of any length), plus snapshot scenarios for all seven collection kinds x every mutating operation",
 		Rule:      "state = (source, size, slot, slot of a second iterator over the same collection); transition = one move on the real iterator compared with a (slice, slot) model",
-		Assume:    []string{"sizes 0..4 (quick) / 0..6 (thorough)", "ToSlot(k<-size) admits slot 0 or 1 (the statement only says clamp)", "Catalog iterators yield live association handles by design (compared by identity)"},
+		Assume:    []string{"sizes 0..4 (quick) / 0..9 (thorough)", "ToSlot(k<-size) admits slot 0 or 1 (the statement only says clamp)", "Catalog iterators yield live association handles by design (compared by identity)"},
 		Budget:    func(string) time.Duration { return 2 * time.Minute },
 		Units: func(string) []engine.Unit {
 			return []engine.Unit{{Name: "cursor", Run: cursor}, {Name: "snapshots", Run: snapshots}, {Name: "move-histories", Run: histories}}
